@@ -545,7 +545,8 @@ impl CodegenContext {
                                 .with_labels(vec![value.span.to_label()])
                                 .into());
                         }
-                        let padding = (align - (pc.as_i64() % align)) as usize;
+                        // Nothing to do when we already are where we want to be
+                        let padding = ((align - (pc.as_i64() % align)) % align) as usize;
                         let mut bytes = Vec::new();
                         bytes.resize(padding, 0u8);
                         self.emit(value.span, &bytes)?;
